@@ -264,6 +264,10 @@ func child(r *ev.Run, p *plan) {
 		}
 		t := translate(out.Events)
 		r.Add("trace_events_bound", int64(len(t.Lines)))
+		if d := os.Getenv("C19_KEEP"); d != "" { // development aid: keep the recording and its cfg
+			_ = os.WriteFile(filepath.Join(d, fmt.Sprintf("trace-%d-%d.ndjson", sc.Seed, sc.Round)), t.ndjson(), 0o644)
+			_ = os.WriteFile(filepath.Join(d, fmt.Sprintf("trace-%d-%d.cfg", sc.Seed, sc.Round)), []byte(traceCfg(t, nil)), 0o644)
+		}
 		// an invariant that fails on the recording is a finding; the rest of the recording is still followed without it
 		skip := map[string]bool{}
 		for try := 0; try < 5; try++ {
